@@ -304,7 +304,7 @@ TWO_PI = 2 * np.pi
 def _meta_of(s):
     m = s.tbl.meta
     tr = m.get("t_ref")
-    return (None if tr is None else float(tr.tcb.mjd), m.get("poly_trend"), m.get("n_offsets"))
+    return (None if tr is None else float(tr.tcb.mjd) if hasattr(tr, "tcb") else float(tr), m.get("poly_trend"), m.get("n_offsets"))
 
 
 def _units_of(s):
